@@ -1061,6 +1061,26 @@ class Fn:
     def varname(self, key):
         return lname(key.replace(".", "_"))
 
+    def is_logging_call(self, e):
+        """`logging.<level>(…)` with `logging` the standard module, or `logger.<level>(…)` with `logger` bound exactly once,
+        at module level, to `logging.getLogger(…)`"""
+        if not (isinstance(e, ast.Call) and isinstance(e.func, ast.Attribute) and isinstance(e.func.value, ast.Name)
+                and e.func.attr in ("debug", "info", "warning", "error", "critical", "exception")):
+            return False
+        base = e.func.value.id
+        if base in self.locals:
+            return False
+        if base == "logging":
+            return self.mod.imported("logging", "logging")
+        binds = [n for n in self.mod.tree.body if isinstance(n, ast.Assign) and len(n.targets) == 1
+                 and isinstance(n.targets[0], ast.Name) and n.targets[0].id == base]
+        stores = [n for n in ast.walk(self.mod.tree) if isinstance(n, ast.Name) and n.id == base and isinstance(n.ctx, ast.Store)]
+        if len(binds) != 1 or len(stores) != 1:
+            return False
+        v = binds[0].value
+        return (isinstance(v, ast.Call) and isinstance(v.func, ast.Attribute) and v.func.attr == "getLogger"
+                and isinstance(v.func.value, ast.Name) and v.func.value.id == "logging" and self.mod.imported("logging", "logging"))
+
     @staticmethod
     def is_append(e):
         return (isinstance(e, ast.Call) and isinstance(e.func, ast.Attribute) and e.func.attr == "append"
@@ -1117,6 +1137,16 @@ class Fn:
         if isinstance(s, ast.Expr) and isinstance(s.value, ast.Constant) and isinstance(s.value.value, str):
             return self.block(rest, env, k)           # docstring
         if isinstance(s, ast.Pass):
+            return self.block(rest, env, k)
+        if isinstance(s, ast.Expr) and self.is_logging_call(s.value):
+            # logging.<level>(…) / logger.<level>(…): no effect on any value the translation speaks about.  Its arguments
+            # must be constants or bound plain names, so that evaluating them cannot raise.
+            for a_ in s.value.args:
+                if not (isinstance(a_, ast.Constant) or (isinstance(a_, ast.Name) and a_.id in env and env[a_.id].t != "rec")):
+                    self.err(s, "logging call with an argument that is not a constant or a bound name (evaluating it could raise)")
+            if s.value.keywords:
+                self.err(s, "logging call with keyword arguments is not in the subset")
+            self.notes.append("the logging call at line %d has no effect on the translated values and is left out" % s.lineno)
             return self.block(rest, env, k)
         if isinstance(s, ast.Expr) and self.is_append(s.value):
             # `t.append(e)` on a list of ints created in this function and not aliased: t = t + [e]
@@ -1399,6 +1429,29 @@ class Fn:
         names = [n for n in asg_a + [x for x in asg_b if x not in asg_a]
                  if n in env or (n in asg_a and n in asg_b)]
         if not names:
+            # Nothing that is live afterwards is assigned.  The `if` may be left out of the translation ONLY when both
+            # branches are effect-free and cannot raise: every statement is validated (a bare call, an item store through a
+            # call, … is a TranslationError from `block`; an operation that can raise is refused here) — nothing is dropped
+            # unseen.
+            saved, g0 = self.monadic, self.guard
+            snap = (self.fresh, set(self.names), len(self.notes), list(self.pre))
+            try:
+                self.monadic = False
+                for br in (s.body, s.orelse):
+                    self.block(list(br), env, lambda e2: "()")
+            except NeedMonad:
+                self.guard = g0
+                self.monadic = saved
+                self.err(s, "an `if` whose branches assign no variable that is live afterwards but contain an operation "
+                            "that can raise is not in the subset (it can neither be dropped nor expressed)")
+            finally:
+                self.monadic = saved
+            self.fresh, self.names, self.pre = snap[0], snap[1], snap[3]
+            del self.notes[snap[2]:]
+            if any(not isinstance(st, ast.Pass) for st in list(s.body) + list(s.orelse)):
+                self.notes.append("the `if` at line %d is not translated: its branches were checked statement by statement — "
+                                  "they assign nothing that is read afterwards, cannot raise, and contain no call other than "
+                                  "logging" % s.lineno)
             return pre + self.block(rest, env, k)
         ends = []
         def kk(e2):
